@@ -309,11 +309,7 @@ pub fn run_child_stdout_threads(bin: &Path, argv_tail: &[String], threads: Optio
 
 fn first_line(s: &str) -> String {
     let l = s.lines().find(|l| !l.trim().is_empty()).unwrap_or("");
-    let mut l = l.to_string();
-    if l.len() > 200 {
-        l.truncate(200);
-    }
-    l
+    l.chars().take(200).collect()
 }
 
 /// `Command::output()` with the fork/exec step under SPAWN_LOCK.
